@@ -830,8 +830,8 @@ func runC08(c *Check) {
 		c.NoteGraph(g)
 		fn := fnName(step)
 		// refusing exits: success exits reachable without any store/sequencer call and not through ctx.Done
-		firstAction := IsCall(storeM("Height"), storeM("GetBlockData"), storeM("SaveBlockData"), seqM("GetNextBatch"))
-		depth0 := func(n *Node) bool { return n.Ctx.Depth == 0 }
+		// (a return that neither asked the sequencer for a batch nor saved a block has produced nothing)
+		firstAction := IsCall(storeM("SaveBlockData"), seqM("GetNextBatch"))
 		cancel := ctxDoneEdges(g)
 		var refusing []*Node
 		for _, x := range g.Exits {
@@ -839,12 +839,12 @@ func runC08(c *Check) {
 			if g.ExitClass(x) == rcA {
 				continue
 			}
-			if g.PathAvoiding([]*Node{g.Entry}, func(n *Node) bool { return n == xx }, orPred(func(n *Node) bool { return depth0(n) && firstAction(n) }, nodeSet(cancel))) != nil {
+			if g.PathAvoiding([]*Node{g.Entry}, func(n *Node) bool { return n == xx }, orPred(firstAction, nodeSet(cancel))) != nil {
 				refusing = append(refusing, x)
 			}
 		}
 		if len(refusing) == 0 {
-			c.Unk("C08-R1", fnShort(step)+" ⟂ refusing-return", fn, "", "anchor lost: no early success return before the first store access in the production step")
+			c.Unk("C08-R1", fnShort(step)+" ⟂ refusing-return", fn, "", "anchor lost: no success return of the production step that neither takes a batch nor saves a block")
 			continue
 		}
 		limitNZ := g.Select(EdgeWhere(func(t *Term, pol bool, n *Node) bool {
